@@ -95,12 +95,12 @@ def run_date(ck, date, seen_fp):
     r, _ = ck.solve(pre + [T(v1["ges_rentenv_beitr_arbeitnehmer_m"]) > 0])
     if r != "sat":
         raise common.HarnessError(f"C19 vacuity twin failed at {date}")
-    # no error guard reachable in the slice
-    errs = [g for c in ctxs[:1] for g, k, w in c.errors]
+    # paths on which a rule of the slice raises are C08's subject (complete, computable system);
+    # here they are excluded from the shape claims
+    errs = [g for c in ctxs for g, k, w in c.errors]
     if errs:
-        r, m = ck.oblige(f"slice raises @{date}", pre + [z3.Or(errs)], 60)
-        if r == "sat":
-            report(ck, dag, date, "raises", "slice", m, f1, f2, None)
+        pre = pre + [z3.Not(z3.Or(errs))]
+        ck.extra["error_guards_excluded"] = ck.extra.get("error_guards_excluded", 0) + len(errs)
     for b, ceil_node in BRANCHES.items():
         emp = f"{b}_beitr_arbeitnehmer_m"
         e1, e2 = T(v1[emp]), T(v2[emp])
